@@ -591,6 +591,20 @@ func (s *Stage) Recover() {
 			defer wg.Done()
 			for f := range ch {
 				finalFile := s.partialToFinal(f)
+				existing := s.fromCache(finalFile.path)
+				if existing != nil &&
+					existing.state >= stateFinalized &&
+					existing.hash == finalFile.hash {
+					// The cache was just built from the log of received files:
+					// this version was delivered before the restart and what
+					// is staged is a copy received again (the counterpart of
+					// "Ignoring duplicate (receive)").
+					s.logInfo("Ignoring duplicate (recover):", finalFile.name)
+					os.Remove(finalFile.path + fullExt)
+					os.Remove(finalFile.path + compExt)
+					s.delPathLock(finalFile.path)
+					continue
+				}
 				s.toCache(finalFile, stateReceived)
 				s.process(finalFile)
 			}
